@@ -1543,7 +1543,8 @@ impl StorageEngine {
                 _ => return Err(StorageError::WrongType.into()),
             }
         } else {
-            return Ok(Vec::new());
+            // A missing first key is an empty set; the other keys must still be sets
+            HashSet::new()
         };
         drop(shard_guard); // Release lock early
         
